@@ -13,7 +13,7 @@ open Rangers Rangers.Model.BlockExec Rangers.Props.C01
 
 /-- what the property asks: the chain height of the executing node does not matter -/
 def FullStatementChainHeightIrrelevant : Prop :=
-  ∀ (ρ : Orders) (env : Env) (t : ForkTable) (g₁ g₂ : Nat) (hd : Header) (rw : Option RewardIn)
+  ∀ (ρ : Orders) (env : Env) (t : ForkTable) (g₁ g₂ : Nat) (hd : Header) (rw : St → Option RewardIn)
     (ids : List Addr) (s : St) (txs : List Tx),
     (execBlockAt ρ env t g₁ hd rw ids s txs).receipts.map (·.hash)
       = (execBlockAt ρ env t g₂ hd rw ids s txs).receipts.map (·.hash)
@@ -33,9 +33,9 @@ theorem flagsAt_sameSide (t : ForkTable) (g₁ g₂ : Nat) (h : SameSide t g₁ 
     (in particular: every replica that executes the block on top of its own chain, `g = height-1`)
     compute the same result, under any iteration orders. -/
 theorem chain_height_irrelevant_partial (ρ₁ ρ₂ : Orders) (v₁ : OrdersValid ρ₁) (v₂ : OrdersValid ρ₂) (env : Env)
-    (t : ForkTable) (g₁ g₂ : Nat) (hs : SameSide t g₁ g₂) (hd : Header) (rw : Option RewardIn) (ids : List Addr)
+    (t : ForkTable) (g₁ g₂ : Nat) (hs : SameSide t g₁ g₂) (hd : Header) (rw : St → Option RewardIn) (ids : List Addr)
     (s : St) (txs : List Tx)
-    (hmap : ∀ r vs, rw = some r → r.validators = some vs → (vs.map Prod.fst).Nodup) :
+    (hmap : ∀ s r vs, rw s = some r → r.validators = some vs → (vs.map Prod.fst).Nodup) :
     execBlockAt ρ₁ env t g₁ hd rw ids s txs = execBlockAt ρ₂ env t g₂ hd rw ids s txs := by
   unfold execBlockAt
   rw [flagsAt_sameSide t g₁ g₂ hs]
@@ -45,7 +45,7 @@ def devTable : ForkTable := ⟨0, 0, 0, 0, 0, 12⟩
 example : SameSide devTable 11 10 := by unfold SameSide devTable; decide
 example : ¬ SameSide devTable 11 15 := by unfold SameSide devTable; decide
 
-def cexEnv : Env := ⟨99, 1, fun _ _ s => ⟨s, false, [], 0, []⟩⟩
+def cexEnv : Env := ⟨99, 1, fun _ _ s => ⟨s, false, [], 0, [], false⟩⟩
 def cexTx1 : Tx := ⟨0x10, 0, 0, 100, [97], 1, 1, 1, .empty⟩
 def cexTx2 : Tx := ⟨0x20, 0, 0, 100, [97], 1, 1, 1, .empty⟩
 
@@ -54,10 +54,60 @@ def cexTx2 : Tx := ⟨0x20, 0, 0, 100, [97], 1, 1, 1, .empty⟩
     hash descending — the receipts (and with real transfers the ledger) differ. -/
 theorem chain_height_counterexample : ¬ FullStatementChainHeightIrrelevant := by
   intro h
-  have := h Orders.id cexEnv devTable 11 15 ⟨12, 1⟩ none [] St.empty [cexTx1, cexTx2]
+  have := h Orders.id cexEnv devTable 11 15 { height := 12, p004Block := 1 } (fun _ => none) [] St.empty [cexTx1, cexTx2]
   unfold execBlockAt at this
   rw [receipts_in_list_order, receipts_in_list_order] at this
   revert this
   decide
+
+/-! ## exactly which executions are affected
+
+`checkStates` / `runTransactions` execute block `h` on top of the node's own chain, so the
+process-wide height is `h - 1` on every such replica.  Only `verifyStateAndReceipt` (situation
+"fork") executes a block while the local top is something else. -/
+
+def heightsOf (t : ForkTable) : List Nat := [t.p006, t.p007, t.p016, t.p018, t.p021, t.p023]
+
+/-- some activation height lies strictly above the lower and at or below the higher of the two tops -/
+def ActivationBetween (t : ForkTable) (g₁ g₂ : Nat) : Prop :=
+  ∃ b ∈ heightsOf t, min g₁ g₂ < b ∧ b ≤ max g₁ g₂
+
+theorem sameSide_of_no_activation_between (t : ForkTable) (g₁ g₂ : Nat) (h : ¬ ActivationBetween t g₁ g₂) :
+    SameSide t g₁ g₂ := by
+  have key : ∀ b ∈ heightsOf t, (g₁ ≥ b ↔ g₂ ≥ b) := by
+    intro b hb
+    have hn : ¬ (min g₁ g₂ < b ∧ b ≤ max g₁ g₂) := fun hc => h ⟨b, hb, hc⟩
+    omega
+  unfold SameSide
+  simp only [heightsOf, List.mem_cons, List.mem_nil_iff, or_false, forall_eq_or_imp, forall_eq] at key
+  exact key
+
+/-- all replicas that execute the block on top of their own chain (normal and casting path:
+    process height = header height − 1) agree, whatever iteration orders they pick -/
+theorem normal_path_replicas_agree (ρ₁ ρ₂ : Orders) (v₁ : OrdersValid ρ₁) (v₂ : OrdersValid ρ₂) (env : Env)
+    (t : ForkTable) (hd : Header) (rw : St → Option RewardIn) (ids : List Addr) (s : St) (txs : List Tx)
+    (hmap : ∀ s r vs, rw s = some r → r.validators = some vs → (vs.map Prod.fst).Nodup) :
+    execBlockAt ρ₁ env t (hd.height - 1) hd rw ids s txs = execBlockAt ρ₂ env t (hd.height - 1) hd rw ids s txs :=
+  chain_height_irrelevant_partial ρ₁ ρ₂ v₁ v₂ env t _ _
+    ⟨Iff.rfl, Iff.rfl, Iff.rfl, Iff.rfl, Iff.rfl, Iff.rfl⟩ hd rw ids s txs hmap
+
+/-- **Which executions the known finding touches.**  A replica whose process-wide height is `g`
+    (fork path) can disagree with the replicas on the normal path only if an activation height
+    lies between `g` and `header.Height − 1`. -/
+theorem affected_only_if_activation_between (ρ₁ ρ₂ : Orders) (v₁ : OrdersValid ρ₁) (v₂ : OrdersValid ρ₂) (env : Env)
+    (t : ForkTable) (g : Nat) (hd : Header) (rw : St → Option RewardIn) (ids : List Addr) (s : St) (txs : List Tx)
+    (hmap : ∀ s r vs, rw s = some r → r.validators = some vs → (vs.map Prod.fst).Nodup)
+    (hne : execBlockAt ρ₁ env t g hd rw ids s txs ≠ execBlockAt ρ₂ env t (hd.height - 1) hd rw ids s txs) :
+    ActivationBetween t g (hd.height - 1) := by
+  apply Classical.byContradiction
+  intro hno
+  exact hne (chain_height_irrelevant_partial ρ₁ ρ₂ v₁ v₂ env t g (hd.height - 1)
+    (sameSide_of_no_activation_between t g _ hno) hd rw ids s txs hmap)
+
+example : ActivationBetween devTable 15 (12 - 1) := ⟨12, by decide, by decide⟩
+example : ¬ ActivationBetween devTable 20 (14 - 1) := by
+  intro ⟨b, hb, h1, h2⟩
+  simp [heightsOf, devTable] at hb
+  rcases hb with rfl | rfl <;> omega
 
 end Rangers.Props.C01B
